@@ -349,6 +349,20 @@ class Canon:
         for (s, c) in self.trig_defs:
             for j in (s, c):
                 if j is not None: lines.append("(assert (and (<= (- 1) n%d) (<= n%d 1)))" % (j, j))
+        # sign / zero facts of sin and cos on stated intervals (sound for the real functions; PI_LO < pi)
+        PI = "(/ 31415926535 10000000000)"; HPI = "(/ 31415926535 20000000000)"; TPI = "(/ 31415926535 5000000000)"
+        for kk, A in self.trigargs.items():
+            sc = self.trigbase.get(kk)
+            if not sc or sc[0] is None or sc[1] is None: continue
+            sv, cv = sc
+            if not (len(sv[0]) == 1 and sv[1] == 1 and len(cv[0]) == 1 and cv[1] == 1 and sv[0].LC == 1 and cv[0].LC == 1): continue   # only base atoms
+            a = self.rat_smt(A); s_ = self.poly_smt(sv[0]); c_ = self.poly_smt(cv[0])
+            lines.append("(assert (=> (and (< 0 %s) (< %s %s)) (> %s 0)))" % (a, a, PI, s_))
+            lines.append("(assert (=> (and (< (- %s) %s) (< %s 0)) (< %s 0)))" % (PI, a, a, s_))
+            lines.append("(assert (=> (and (< (- %s) %s) (< %s %s)) (> %s 0)))" % (HPI, a, a, HPI, c_))
+            lines.append("(assert (=> (and (not (= %s 0)) (< (- %s) %s) (< %s %s)) (< %s 1)))" % (a, TPI, a, a, TPI, c_))
+            lines.append("(assert (=> (= %s 0) (and (= %s 0) (= %s 1))))" % (a, s_, c_))
+            self.axioms.add('sign of sin on (0,pi)/(-pi,0), cos>0 on (-pi/2,pi/2), cos<1 on 0<|a|<2pi, with rational lower bound 3.1415926535 < pi')
         return lines
 
     def steps(self, ids=None):
